@@ -30,8 +30,6 @@ class Tasks:
         self.busy = False
         self.log = log if log is not None else []
         self.closed_after = None
-        if has_len:
-            self.__len__ = lambda: n
 
     def __iter__(self):
         if self.iter_raises:
@@ -60,6 +58,13 @@ class Tasks:
             return delayed(self.fn)(self.call_no, i)
         finally:
             self.busy = False
+
+
+class SizedTasks(Tasks):
+    """An input with a length (Parallel uses it for its progress messages only)."""
+
+    def __len__(self):
+        return self.n
 
 
 _INSTRUMENTED = {}
@@ -294,8 +299,9 @@ def run(cfg, sched):
             with ctx:
                 for call_no, c in enumerate(cfg["calls"]):
                     rec = {"call": call_no, "result": None, "exc": None, "taken_before": len(out.iter_log)}
-                    tasks = Tasks(sim, call_no, c["n_tasks"], task, c.get("iter_fail_at"), out.iter_log,
-                                  has_len=c.get("has_len", False), slow_at=c.get("slow_at"),
+                    tasks = (SizedTasks if c.get("has_len") else Tasks)(
+                                  sim, call_no, c["n_tasks"], task, c.get("iter_fail_at"), out.iter_log,
+                                  slow_at=c.get("slow_at"),
                                   iter_raises=c.get("iter_raises", False),
                                   slow_until=(lambda: bool(p._aborting)) if c.get("slow_at") is not None else None)
                     rec["tasks"] = tasks
